@@ -1136,12 +1136,10 @@ func (c *Ctx) scratchHoldsTheMessage() {
 			}
 			break
 		}
-		ld, ok := base.(*ssa.UnOp)
-		if !ok || ld.Op != token.MUL {
+		// ring memory handed out by the reservation (a result of a method of the ring) is B10 / B11's business; anything
+		// else the writer encodes into is its scratch
+		if c.isRingMemory(base, 0) {
 			return
-		}
-		if _, isField := ld.X.(*ssa.FieldAddr); !isField {
-			return // ring memory handed out by the reservation: B10 / B11
 		}
 		av, ok1 := p.Val(0, arg)
 		var lv bounds.AVal
@@ -1327,6 +1325,48 @@ func testsField(cond ssa.Value, field string, d int) bool {
 				return testsField(x.Y, field, d+1)
 			}
 		}
+	}
+	return false
+}
+
+// isRingMemory: v is memory a method of the ring handed out (a result of WriteWait), directly, re-sliced, or passed
+// down to a helper as a parameter by every caller.
+func (c *Ctx) isRingMemory(v ssa.Value, d int) bool {
+	if d > 4 {
+		return false
+	}
+	switch x := v.(type) {
+	case *ssa.Slice:
+		return c.isRingMemory(x.X, d+1)
+	case *ssa.Extract:
+		if rc, ok := x.Tuple.(*ssa.Call); ok && rc.Common().StaticCallee() != nil && recvNamed(rc.Common().StaticCallee()) == "buffer" {
+			return true
+		}
+	case *ssa.Phi:
+		for _, e := range x.Edges {
+			if !c.isRingMemory(e, d+1) {
+				return false
+			}
+		}
+		return len(x.Edges) > 0
+	case *ssa.Parameter:
+		fn := x.Parent()
+		idx := -1
+		for i, p := range fn.Params {
+			if p == x {
+				idx = i
+			}
+		}
+		sites := c.P.Callers(fn)
+		if idx < 0 || len(sites) == 0 {
+			return false
+		}
+		for _, s := range sites {
+			if idx >= len(s.Common().Args) || !c.isRingMemory(s.Common().Args[idx], d+1) {
+				return false
+			}
+		}
+		return true
 	}
 	return false
 }
